@@ -25,11 +25,11 @@ CLAIMS = {
  "C02": ("Generated routers (real templates, rendered by the CLI built from /repo for a fixture project, all five engines): (kernel, symbolic) for every route text of up to 2 segments (literal or {param}) with up to three leading slashes, doubled inner slashes and a trailing slash, parameter names of a letter optionally followed by a letter, digit, hyphen or underscore, "
          "the generated toGinUrl/toEchoUrl/toMuxUrl/toChiUrl/toFiberUrl register exactly the path the spec documents (every slash run collapsed, leading slash; ':x' <-> '{x}', no '{name}' left unconverted on gin/echo/fiber); (corpus) the registration table of each engine is in bijection with the fixture's 7 annotated methods (hidden one included) at the documented verb and path, "
          "and a valid request to each reaches that method of that controller and no other.",
-         "Bounds as coded in harness-g/verifgen/cross/zz_verif_c02.go, zz_verif_routes.go. The project dimension is a fixed fixture (fixtures/stageg/project): the generated code of that fixture is what runs here (the rendering itself, over varying projects, is C09's subject). The generated code runs against stand-in framework packages (fixtures/stageg/stubs) that implement the documented behaviour of the accessors the templates call; the frameworks' own request matching is outside.",
+         "Second part of the check (rendering side, harness/.../generator/routes/zz_verif_c02.go: vh_C02_front_registration_Q): for projects of two annotated methods on one or two controllers, five verbs, each method hidden or not, the router rendered by the real generator (interpreted, all five engines, natively replayed) registers - read off the syntax tree of the generated RegisterRoutes - exactly one handler per annotated method, hidden ones included, under the method's verb at controller prefix + route, instantiating that controller and calling that method. Bounds as coded in harness-g/verifgen/cross/zz_verif_c02.go, zz_verif_routes.go. The project dimension is a fixed fixture (fixtures/stageg/project): the generated code of that fixture is what runs here (the rendering itself, over varying projects, is C09's subject). The generated code runs against stand-in framework packages (fixtures/stageg/stubs) that implement the documented behaviour of the accessors the templates call; the frameworks' own request matching is outside.",
          "DESIGN.md 4 (C02, stage G)"),
  "C03": ("For every engine, every fixture route and every behaviour of the user's authorization callback (approve / refuse / refuse with custom payload per call, symbolic), with a valid or an all-parameters-missing request: the callback is asked exactly the checks of the route's effective alternatives (own, else controller's, else configured default) in order, "
          "the controller is invoked only after some alternative was approved in full, a refused request never reaches the controller and is answered with the last refusal's status (and custom payload); plus the generated authorize() on arbitrary lists of up to 2 alternatives x 2 checks; the same on a second generated project without default security whose controller carries no @Security (a method's own @Security still guards it, the unsecured sibling is served without any check).",
-         "Bounds as coded in harness-g/verifgen/cross/zz_verif_c03.go. Same fixture/stub caveats as C02. User-supplied template extensions/middlewares are not part of the fixture.",
+         "Second part of the check (rendering side, harness/.../generator/routes/zz_verif_c03.go: vh_C03_front_effective_security_Q): for a project whose method carries none, one or two @Security annotations (0-2 scopes), whose controller does or does not carry one and with or without a configured default, every handler rendered by the real generator (interpreted, five engines, natively replayed) begins with the authorize call listing exactly the effective alternatives (own, else controller's, else default, else none) with their scheme names and scopes, returns on refusal, and constructs the controller only afterwards (read off the syntax tree of the generated file). Bounds as coded in harness-g/verifgen/cross/zz_verif_c03.go. Same fixture/stub caveats as C02. User-supplied template extensions/middlewares are not part of the fixture.",
          "DESIGN.md 4 (C03, stage G)"),
  "C05": ("For every engine and 5 fixture routes covering path/query/header/form locations, int/uint/int64/int8/bool/string/[]string/enum/pointer/context parameters: for every symbolic request (presence bits, values of up to 2 (thorough 3) bytes over digits, signs and letters, plus numerals around 2^32 and 2^63) "
          "the controller receives position by position the value at the declared location converted to the declared type (reference numeral parsers written from the type's range; numerals around 2^31 for int, 2^32 for uint, 2^63 for int64), a missing non-pointer/path parameter or a non-convertible value is answered 422 without invoking the method, missing pointer parameters arrive as nil, context parameters are non-nil.",
